@@ -33,7 +33,8 @@
    behaviours share their prefixes and their retries (5*10^5 states for <= 3 nodes).
 
    FAULT KINDS (an injected fault is [at, kind, code]; at = request index within the call)
-     "http" (HTTPError code), "url" (URLError), "non2xx" (status code without exception),
+     "http" (HTTPError code), "url" (URLError), "non2xx" / "non2xx_nonobject" / "non2xx_badjson"
+     (a response returned with a 1xx / 3xx / 4xx / 5xx status, body a JSON object / other JSON / not JSON),
      "badjson", "nonobject" (valid JSON, not an object), "badutf8", "nofield" (object without the
      field the caller needs; token and site requests only), "readerr" (read() raises OSError).
 
@@ -400,21 +401,28 @@ Jobs(s) ==
                                        ELSE {} }
 
 NoFault == [at |-> -1, kind |-> "none", code |-> 0]
-FaultCodes(k) == CASE k = "http" -> {403, 404, 500} [] k = "non2xx" -> {404, 503} [] OTHER -> {0}
+\* a response RETURNED (not raised) with a status outside 2xx is a failure whatever its class (1xx, 3xx,
+\* 4xx, 5xx) and whatever its body (a JSON object -- even a well-formed page --, JSON that is not an
+\* object, empty / not JSON): only a 2xx response carrying a JSON object is a page
+Non2xxKinds == {"non2xx", "non2xx_nonobject", "non2xx_badjson"}
+AllCodes == {0, 100, 304, 403, 404, 500, 503}
+FaultCodes(k) == CASE k = "http" -> {403, 404, 500} [] k \in Non2xxKinds -> {100, 304, 404, 503} [] OTHER -> {0}
 Faults(s, j) ==
-    {NoFault} \cup { [at |-> a, kind |-> k, code |-> c] : a \in 0..(NReq(s, j) - 1), k \in FaultKinds, c \in {0, 403, 404, 500, 503} }
+    {NoFault} \cup { [at |-> a, kind |-> k, code |-> c] : a \in 0..(NReq(s, j) - 1), k \in FaultKinds, c \in AllCodes }
 FaultOK(f) == f.at < 0 \/ (f.code \in FaultCodes(f.kind) /\ (f.kind = "nofield" => f.at <= 1))    \* requests 0, 1 = token, site
 
 InjectedAnswer(f) ==
     CASE f.kind = "http" -> AnsRaise("http", f.code)
       [] f.kind = "url"  -> AnsRaise("url", 0)
       [] f.kind = "non2xx" -> AnsResp(Resp(f.code, "ok", <<>>, FALSE, 0, FALSE))
+      [] f.kind = "non2xx_nonobject" -> AnsResp(Resp(f.code, "nonobject", <<>>, FALSE, 0, FALSE))
+      [] f.kind = "non2xx_badjson"   -> AnsResp(Resp(f.code, "badjson", <<>>, FALSE, 0, FALSE))
       [] OTHER -> AnsResp(Resp(200, f.kind, <<>>, FALSE, 0, FALSE))
 
 \* MCSpec: in the first call the transport may answer ONE request -- any one -- with any fault;
 \* everything after that (the retry) is the healthy server.  Choosing the fault when the request
 \* is sent, not in the initial state, lets the behaviours share their prefixes and their retries.
-InjectChoices == { f \in [at : {0}, kind : FaultKinds, code : {0, 403, 404, 500, 503}] : FaultOK(f) }
+InjectChoices == { f \in [at : {0}, kind : FaultKinds, code : AllCodes] : FaultOK(f) }
 MCInit ==
     /\ srv \in Servers
     /\ job \in Jobs(srv)
